@@ -52,6 +52,15 @@ func c07World(tp *Tape, env *Env) (*Plan, *Violation) {
 		prog = g.program()
 	}
 	g.ensureYieldingCycles(prog)
+	if !cfg.NoDeclarePrelude && tp.Chance(6, "barestart") {
+		// the dialogue starts in a node WITHOUT a title, before any variable exists and before any node was left:
+		// a snapshot taken there is, field for field, the zero value - and a genuine snapshot all the same
+		plain := func(t string) *Stmt { return &Stmt{K: sLine, Line: &LineS{Parts: []Part{{Text: t}}}} }
+		bare := &Node{Title: "", Extra: [][2]string{{"tags", "bare"}}}
+		bare.Body = []*Stmt{plain("B1 hello"), {K: sOptions, Options: []*Option{{Line: &LineS{Parts: []Part{{Text: "B2 stay"}}}, Body: []*Stmt{plain("B3 inside")}}, {Line: &LineS{Parts: []Part{{Text: "B4 go"}}}}}}, plain("B5 after"), {K: sJump, Target: prog.Nodes[0].Title}}
+		prog.Nodes = append([]*Node{bare}, prog.Nodes...)
+		env.St.probe("start_in_an_untitled_node_with_nothing_to_save")
+	}
 	layout := Layout{Indent: "    ", FinalNL: true}
 	w := World{Readers: []ReaderSpec{{Text: renderNodes(prog.Nodes, layout, 0)}}}
 	w.Host = HostSpec{Storer: []string{"rec", "mem", "default"}[tp.Pick([]int{4, 4, 1}, "storer")], Probes: true, Seed: "s1", Handlers: cfg.Handlers, Overrides: tp.Chance(10, "hostoverrides")}
